@@ -273,4 +273,68 @@ def viewLine (toks : List String) : String :=
       | .error f => "PANIC " ++ faultSite f
       | .ok v => renderView v
 
+/-! ### `add …`: TopicStats.Add / ChannelStats.Add on reports given directly (stream `add`) -/
+
+def counters13 : P Counters := fun ts => do
+  let (l, ts) ← many int 13 ts
+  match l with
+  | [a, b, c, d, e', f, g, h, i, j, k, m, n] =>
+    pure ({ depth := a, memDepth := b, backendDepth := c, inFlight := d, deferred := e', requeue := f, timeout := g,
+            msgCount := h, delivery := i, zoneLocal := j, regionLocal := k, globalMsg := m, clientCount := n }, ts)
+  | _ => none
+
+def counters8 : P Counters := fun ts => do
+  let (l, ts) ← many int 8 ts
+  match l with
+  | [a, b, c, h, i, j, k, m] =>
+    pure ({ depth := a, memDepth := b, backendDepth := c, msgCount := h, delivery := i, zoneLocal := j,
+            regionLocal := k, globalMsg := m }, ts)
+  | _ => none
+
+def chanNodeTok : P ChanNode := fun ts => do
+  let (node, ts) ← str ts
+  let (host, ts) ← str ts
+  let (topic, ts) ← str ts
+  let (name, ts) ← str ts
+  let (paused, ts) ← bool ts
+  let (e2e, ts) ← bool ts
+  let (cnt, ts) ← counters13 ts
+  let (cl, ts) ← counted client ts
+  pure ({ node := node, hostname := host, topic := topic, name := name, cnt := cnt, paused := paused,
+          clients := cl.map (fun c => ⟨c.hostname, c.clientId, node⟩), e2e := e2e }, ts)
+
+def topicNodeTok : P TopicNode := fun ts => do
+  let (node, ts) ← str ts
+  let (host, ts) ← str ts
+  let (name, ts) ← str ts
+  let (paused, ts) ← bool ts
+  let (e2e, ts) ← bool ts
+  let (cnt, ts) ← counters8 ts
+  let (chs, ts) ← counted chanNodeTok ts
+  pure ({ node := node, hostname := host, name := name, cnt := cnt, paused := paused, channels := chs, e2e := e2e }, ts)
+
+def foldChan (fx : Fixes) : List ChanNode → ChanAgg → Except Fault ChanAgg
+  | [], c => .ok c
+  | a :: rest, c =>
+    match c.add fx a with
+    | .error e => .error e
+    | .ok c' => foldChan fx rest c'
+
+def addLine : List String → String
+  | "topic" :: name :: rest =>
+    (match counted topicNodeTok rest with
+     | none => "bad-op"
+     | some (reports, _) =>
+       match TopicAgg.addAll Fixes.all reports { name := name } with
+       | .error f => "PANIC " ++ faultSite f
+       | .ok t => "200 0 " ++ renderBody (.topic t))
+  | "channel" :: name :: rest =>
+    (match counted chanNodeTok rest with
+     | none => "bad-op"
+     | some (reports, _) =>
+       match foldChan Fixes.all reports { node := "", topic := "", name := name } with
+       | .error f => "PANIC " ++ faultSite f
+       | .ok c => "200 0 " ++ renderBody (.channel c))
+  | _ => "bad-op"
+
 end Nsq.Model.AggregateWire
